@@ -65,12 +65,16 @@ CASES = [
     ("m-c04-labels-param", "C04", "fire", "xdis/bytecode.py", "        is_jump_target = i in labels\n", "        is_jump_target = offset in labels and i != 0\n", "is_jump_target"),
     ("m-c04-wordcode-send", "C04", "fire", "xdis/wordcode.py", "opc.opname[op] in (\"FOR_ITER\", \"SEND\")", "opc.opname[op] in (\"FOR_ITER\",)", "SEND:label"),
     # ---------------- C05
-    ("m-c05-sign", "C05", "fire", "xdis/cross_dis.py", "                if signed_line_delta and line_delta >= 0x80:", "                if signed_line_delta and line_delta > 0x80:", "line-advance"),
+    ("m-c05-sign", "C05", "fire", "xdis/cross_dis.py", "                if signed_line_delta and line_delta >= 0x80:", "                if signed_line_delta and line_delta > 0x80:", "two-pairs(dup_lines=False)"),
     ("m-c05-unsigned-gate", "C05", "fire", "xdis/opcodes/base.py", "    if version_tuple is None or version_tuple <= (3, 5):\n        loc[\"findlinestarts\"] = findlinestarts_unsigned", "    if version_tuple is None or version_tuple <= (3, 6):\n        loc[\"findlinestarts\"] = findlinestarts_unsigned", "line-delta-signedness"),
     ("m-c05-unsigned-dropped", "C05", "fire", "xdis/cross_dis.py", "    return findlinestarts(code, dup_lines=dup_lines, signed_line_delta=False)", "    return findlinestarts(code, dup_lines=dup_lines)", "line-delta-signedness"),
     ("m-c05-310-128", "C05", "fire", "xdis/codetype/code310.py", "            if line_delta != -128:", "            if line_delta != -127:", "minus128"),
-    ("m-c05-emit-after", "C05", "fire", "xdis/cross_dis.py", "                    if offset >= bytecode_len:\n                        # The rest of the ``lnotab byte offsets are past the end of\n                        # the bytecode; any line numbers for these have been removed.\n                        return\n                    offset += byte_incr",
-     "                    offset += byte_incr\n                    if offset >= bytecode_len:\n                        return", ""),  # behaviour change only for entries past the end: tolerated -> silent
+    ("m-c05-end-check-before-increment", "C05", "fire", "xdis/cross_dis.py", "                    offset += byte_incr\n                    if stop_at_code_end and offset >= bytecode_len:",
+     "                    if stop_at_code_end and offset >= bytecode_len:\n                        return\n                    offset += byte_incr\n                    if False:", "end-of-code@3.8"),
+    ("m-c05-end-check-38-gate", "C05", "fire", "xdis/opcodes/base.py", "            if (3, 8) <= tuple(version_tuple[:2]) < (3, 10)", "            if (3, 9) <= tuple(version_tuple[:2]) < (3, 10)", "end-of-code@3.8"),
+    ("m-c05-end-check-for-all", "C05", "fire", "xdis/cross_dis.py", "                    if stop_at_code_end and offset >= bytecode_len:", "                    if offset >= bytecode_len:", "end-of-code@"),
+    ("s-c05-end-check-rewritten", "C05", "silent", "xdis/cross_dis.py", "                    offset += byte_incr\n                    if stop_at_code_end and offset >= bytecode_len:",
+     "                    offset = offset + byte_incr\n                    past_end = not offset < bytecode_len\n                    if past_end and stop_at_code_end:", ""),
     ("m-c05-none-313", "C05", "fire", "xdis/opcodes/opcode_313.py", "        if line is not lastline:", "        if line is not None and line is not lastline:", "3.13:guard"),
     # ---------------- C06 / C08 / C09
     ("m-c06-flag-byte", "C06", "fire", "xdis/load.py", "                pep_bits = ts[0]", "                pep_bits = ts[1]", "pep552-flag-term"),
